@@ -234,7 +234,10 @@ func (w *Witness) Update(ctx context.Context, logID string, oldSize uint64, next
 	if next.Size == 0 {
 		// SPEC:  The proof MUST be empty if the old size is zero.
 		if len(cProof) > 0 {
-			return nil, fmt.Errorf("oldSize=0 but non-zero proof supplied")
+			// A non-empty proof between two empty trees is an invalid consistency proof,
+			// exactly as it is between two equal non-empty trees.
+			counterInvalidConsistency.Inc(logID)
+			return prevRaw, ErrInvalidProof
 		}
 		signed, err := w.signChkpt(nextNote)
 		if err != nil {
